@@ -3046,6 +3046,11 @@ class Mailbox:
         - `name`: The name of the mailbox to delete
         - `server`: The user server object
         """
+        # Like `IMAPUserServer.get_mailbox()`: one leading "/" is ignored
+        # (the folder is removed by this name: an absolute path would be
+        # taken as it is, not relative to the mail directory.)
+        #
+        name = name[1:] if name and name[0] == "/" else name
         if name.lower() == "inbox":
             raise InvalidMailbox("You are not allowed to delete the inbox")
 
